@@ -45,10 +45,6 @@ def doc_features(doc):
     for l in doc:
         if l and l[0] != '#' and '#' in l[1:]:
             f.add('trailing-comment')
-        # a .names operand that merely CONTAINS "unconn" (rx_unconnected, __vpr__unconn3): the reader's parse_name
-        # tests `"unconn" in name`, so the net is dropped as if it were the literal placeholder `unconn`
-        if l and l[0] == '.names' and any('unconn' in t and t != 'unconn' for t in l[1:]):
-            f.add('names-unconn-substring')
     instanced = set()
     models = split_models(doc)
     for name, lines in models:
@@ -183,7 +179,7 @@ def default_name_clash(doc):
         ref = None
         if head in ('.subckt', '.gate') and len(l) >= 2:
             ref = l[1]
-        elif head == '.names' and len(l) >= 2 and 'unconn' in l[-1]:
+        elif head == '.names' and len(l) >= 2 and l[-1] == 'unconn':
             ref = 'logic-gate_%d' % (len(l) - 2)
         if head in BODY_STMTS:
             cur = head
